@@ -1,5 +1,6 @@
 import CkbVerif.Driver.Util
 import CkbVerif.Model.Dao
+import CkbVerif.Model.DaoRaw
 import CkbVerif.Model.Reward
 
 /-! Line-protocol driver for C06 (protocol: see harness/hnode/src/c06.rs). -/
@@ -25,6 +26,8 @@ def errName : Err → String
   | .overflow => "err-overflow"
   | .panic => "panic"
   | .invalidOutPoint => "err-outpoint"
+  | .invalidHeader => "err-header"
+  | .invalidDaoFormat => "err-format"
 
 def showR (r : R Nat) : String :=
   match r with
@@ -105,6 +108,65 @@ def parseTx? (s : String) : Option Tx :=
 
 def parseTxs? (s : String) : Option (List Tx) := parseList? parseTx? ";" s
 
+/-! raw transactions (`rfee` / `rdao`; protocol: harness/hnode/src/c06.rs, "raw" section) -/
+
+def parseDots? (s : String) : Option (List Nat) := (s.splitOn ".").mapM parseNat?
+
+/-- `cap:lockArgs:typeArgs|n:dataBytes:<ty>:<data>:<info>:<sat>` with ty = `n` | two bits
+(hash type is Type, code hash is the dao type hash); data = `n` | `len.value`;
+info = `n` | `hash.number.index`; sat = `0` | `1` -/
+def parseRawInput? (s : String) : Option RawInput :=
+  match s.splitOn ":" with
+  | [a, b, c, d, ty, data, info, sat] => do
+    let cell ← parseCell? [a, b, c, d]
+    let ty ← (match ty with
+      | "n" => some none
+      | "00" => some (some (false, false))
+      | "01" => some (some (false, true))
+      | "10" => some (some (true, false))
+      | "11" => some (some (true, true))
+      | _ => none)
+    let loaded ← (if data = "n" then some none else
+      match parseDots? data with
+      | some [l, v] => some (some (l, v))
+      | _ => none)
+    let txInfo ← (if info = "n" then some none else
+      match parseDots? info with
+      | some [h, n, i] => some (some (⟨h, n, i⟩ : TxInfo))
+      | _ => none)
+    let sat ← (match sat with
+      | "0" => some false
+      | "1" => some true
+      | _ => none)
+    pure { cell := cell, typeScript := ty, loaded := loaded, txInfo := txInfo, lockIsSatoshi := sat }
+  | _ => none
+
+/-- `m` (does not parse as WitnessArgs) | `e` (no input_type) | `len.value` -/
+def parseRawWitness? (s : String) : Option RawWitness :=
+  if s = "m" then some .malformed
+  else if s = "e" then some (.args none)
+  else match parseDots? s with
+    | some [l, v] => some (.args (some (l, v)))
+    | _ => none
+
+/-- `<inputs>|<outputs>|<witnesses>|<header deps>` -/
+def parseRawTx? (s : String) : Option RawTx :=
+  match s.splitOn "|" with
+  | [i, o, w, d] => do
+    let ins ← parseList? parseRawInput? "," i
+    let outs ← parseList? (fun x => parseCell? (x.splitOn ":")) "," o
+    let ws ← parseList? parseRawWitness? "," w
+    let deps ← parseNatList? d
+    pure ⟨ins, outs, ws, deps⟩
+  | _ => none
+
+/-- the data loader's headers: `id.number.ar,…` -/
+def parseHeaders? (s : String) : Option Headers := do
+  let tbl ← parseList? (fun x => match parseDots? x with
+    | some [h, n, a] => some (h, n, a)
+    | _ => none) "," s
+  pure fun h => (tbl.find? (fun e => e.1 == h)).map fun e => e.2
+
 def showDao (r : R DaoField) : String :=
   match r with
   | .ok d => s!"ok {hexOf (pack d)} {d.ar} {d.c} {d.s} {d.u}"
@@ -162,6 +224,16 @@ def step (s : St) (ts : List String) : St × String :=
                            | .ok d => hexOf (pack d)
                            | .error _ => "" }, showDao r)
     | _, _ => (s, "bad-op")
+  | ["rfee", hdrs, tx] =>
+    match parseHeaders? hdrs, parseRawTx? tx with
+    | some hdr, some t => (s, showR (rawTransactionFee hdr t))
+    | _, _ => (s, "bad-op")
+  | ["rdao", ser, st, len, base, rem, pn, ar, c, s', u, hdrs, txs] =>
+    match parseNats? [ser, st, len, base, rem, pn, ar, c, s', u], parseHeaders? hdrs,
+          parseList? parseRawTx? ";" txs with
+    | some [ser, st, len, base, rem, pn, ar, c, s', u], some hdr, some txs =>
+      (s, showDao (rawDaoField hdr ser ⟨st, len, base, rem⟩ pn ⟨ar, c, s', u⟩ txs))
+    | _, _, _ => (s, "bad-op")
   -- chain stream
   | ["cfg", cl, far, n, d, ser] =>
     match parseNats? [cl, far, n, d, ser] with
